@@ -146,11 +146,14 @@ PROPS = {
  "C16": {
   "claimed": True, "drivers": [],
   "technique": "Coq proof (pointer-level model of the v1 event word and next_ chain, auto-reset event on top; invariants over all programs and schedules) + K1 lock-step with the real code",
-  "text": ("PARTIAL. Theorems for ALL thread programs over set/reset/ready/wait (any number of waiters) and ALL schedules: each waiter resumed at most once; resumed iff it observed "
+  "text": ("Theorems for ALL thread programs over set/reset/ready/wait (any number of waiters) and ALL schedules: each waiter resumed at most once; resumed iff it observed "
            "'signalled' or a set took the stack while it was on it; no stranded wait at quiescence; reset only affects later waits; auto-reset: each set consumed by at most one next, "
-           "done is absorbing, a single consumer gets done only after set_done. Tie: K1 lock-step on the real v1 event and auto-reset event. The cancellable v2 event is exercised with "
-           "direct monitors only (no Coq model yet)."),
-  "note": TB + "Sequential consistency. v2 event: monitor only. Findings in cancellable/atomic_intrusive_list surfaced by the v2 lifetime monitor are listed in KNOWN_FINDINGS.txt (see C19/C15).",
+           "done is absorbing, a single consumer gets done only after set_done. Tie: K1 lock-step on the real v1 event and auto-reset event. The cancellable v2 event: Coq model EventV2 (cancellable bits, two-phase "
+           "latch list, stop source at its linearisation points): each wait at most once, no waiter on a latched event, reset only affects later waits for ALL programs; value iff drained/latched, "
+           "done iff removed, progress and exactly-once at quiescence per instance (reachable-set closure certificates for 10 programs x both cancellable variants); quiet-after-completion "
+           "refuted with the two witnesses of the known cancellable findings; lock-step on the real code. async_pass: payload to exactly one acceptor, value iff accepted, cancel leaves the "
+           "other side waiting, no deadlock - for ALL programs and schedules."),
+  "note": TB + "Sequential consistency. v2 event's parametric value/done/progress theorems are per instance. Findings in cancellable/atomic_intrusive_list surfaced by the v2 lifetime monitor are listed in KNOWN_FINDINGS.txt (see C19/C15).",
   "design_ref": "5/C16",
  },
  "C10": {
